@@ -60,11 +60,10 @@ def twin(job, case, m, script, crashes, out, ident, nontriv_fn):
     L = explore.make_run(case, [], model=m)
     L.record_full = True
     explore.play_script(L, script)
-    R = explore.make_run(case, [CrashMon()], model=m, label="restored-twin")
-    R.record_full = True
     cs = set(crashes)
-    if -1 in cs:
-        R.crash()  # persisted and restored before the provider's first request
+    # -1: persisted and restored before the provider's first request (before anything touched the new conductor)
+    R = explore.make_run(case, [CrashMon()], model=m, label="restored-twin", precrash=(-1 in cs))
+    R.record_full = True
     for i, op in enumerate(script):
         R.play(op)
         if i in cs:
